@@ -104,7 +104,8 @@ def cmd_detect(name, props):
             return 2
         det = meta.setdefault("detection", {})
         for p in props:
-            env = dict(os.environ, VERIF_REPO_SRC=os.path.join(root, "src"), VERIF_NO_EVIDENCE="1")
+            env = dict(os.environ, VERIF_REPO_SRC=os.path.join(root, "src"), VERIF_NO_EVIDENCE="1",
+                       VERIF_REPLAY_DIR=os.path.join(root, "replays"))
             rr = subprocess.run([os.path.join(ROOT, "check"), p, "--tier", "quick"], cwd=ROOT, env=env,
                                 capture_output=True, text=True, timeout=3600)
             viol = [ln for ln in rr.stdout.splitlines() if ln.startswith("VIOLATION")]
